@@ -402,8 +402,8 @@ func subEnc(d stDesc) (impl, fail string, enc []byte) {
 }
 
 var modelledKeys = map[string]map[int]bool{
-	"gsub": {11: true, 12: true, 21: true, 31: true},
-	"gpos": {11: true, 12: true},
+	"gsub": {11: true, 12: true, 21: true, 31: true, 41: true},
+	"gpos": {11: true, 12: true, 21: true},
 }
 var knownKeys = map[string]map[int]bool{
 	"gsub": {11: true, 12: true, 21: true, 31: true, 41: true, 51: true, 52: true, 53: true, 61: true, 62: true, 63: true, 71: true, 81: true},
@@ -434,7 +434,27 @@ func subRead(tbl string, lt int, data []byte, pos int) (impl, fail string, model
 	}
 	d, ok := describe(back)
 	if !ok {
-		return "other", "", false
+		xd, okx := describeX(back)
+		if !okx {
+			return "other", "", false
+		}
+		impl = vlib.Str(vlib.L(vlib.Atom("ok"), xd.sx()))
+		if !xd.wellFormed() {
+			return impl, "decoded subtable is not well-formed (coverage and array lengths differ)", modelled
+		}
+		var enc []byte
+		if pp, _ := guard(func() { enc = gtab.VerifC08Encode(back) }); pp {
+			return impl, "encode panics on a decoded subtable", modelled
+		}
+		_, lt2 := xd.table()
+		var again gtab.Subtable
+		if pp, _ := guard(func() { again, err = gtab.VerifC08ReadSubtable(enc, 0, tp, uint16(lt2)) }); pp || err != nil {
+			return impl, "decoded subtable does not survive encode -> read", modelled
+		}
+		if d2, ok := describeX(again); !ok || !sameX(xd, d2) {
+			return impl, "decoded subtable changes under encode -> read", modelled
+		}
+		return impl, "", modelled
 	}
 	impl = vlib.Str(vlib.L(vlib.Atom("ok"), d.sx()))
 	// a decoded subtable is well-formed (pruning) and survives encode -> read
